@@ -256,6 +256,10 @@ class FDD_mpe_havoc(Contract):
 class FDD_mpe_method(Contract):
     qualname = "pyoma2.algorithms.fdd.FDD.mpe"
     props = ("C06",)
+    bounded_driver = {"driver": "flow_mpe", "inputs": {}}
+
+    def witness(self, o):
+        return dict(self.bounded_driver)
     generic_replay = False
     callable_modular = False
     compare_state = False
